@@ -421,7 +421,23 @@ def run(ctx):
             ev = mir.Evaluator(eb, None)
             a = ev.operand(joins[0][2]["args"][1])
             sep_ok = a == T("const", T("str", " "))
-        ok_ex = tmpl == "--exclude {}" and arg_ok and sep_ok and len(maps) == 1
+        # ... on the one and only way through the function: what is returned is the join of the collected map over
+        # the patterns themselves (no filter in between, no fast path beside it)
+        eps = [p for p in mir.walk_function(eb) if p.outcome[0] not in ("unreachable", "infeasible")]
+        straight = len(eps) == 1 and eps[0].outcome[0] == "return" and not [e for e in eps[0].events if e.kind == "guard"]
+        if straight:
+            r_ = mir.strip(eps[0].outcome[1])
+            chain = []
+            for _ in range(8):
+                if isinstance(r_, tuple) and r_ and r_[0] == "call" and r_[2]:
+                    chain.append(mir.method_name(r_[1]))
+                    r_ = mir.strip(r_[2][0])
+                elif isinstance(r_, tuple) and r_ and r_[0] == "iter":
+                    r_ = mir.strip(r_[1])
+                else:
+                    break
+            straight = [c for c in chain if c not in ("into_iter", "iter", "deref", "as_slice", "as_ref", "borrow")] == ["join", "collect", "map"] and r_ == T("param", 1, eb.dbg.get(1, ""))
+        ok_ex = tmpl == "--exclude {}" and arg_ok and sep_ok and len(maps) == 1 and straight
         detail = "template %r, argument ok %s, separator ok %s" % (tmpl, arg_ok, sep_ok)
     if not ok_ex and len(eb.loops()) == 1:
         # the same text built by hand: for each pattern { if !res.is_empty() { res.push(' ') }; res += "--exclude "; res += escaped }
